@@ -47,10 +47,12 @@ def run(ctx):
     rng = ctx.rng
     ENC = {"ascii": None, "ACGT": ae.ACGTEncoding, "ACGTn": ae.ACGTnEncoding, "ACTG": ae.ACTGEncoding, "ACTGn": ae.ACTGnEncoding}
 
+    ENC_ALL = dict(ENC, TCAG=ae.AlphabetEncoding("TCAG"))        # the codon table's own letter order (translation only)
+
     def encode(rows, ename):
         if isinstance(rows, str):
-            return bnp.as_encoded_array(rows) if ENC[ename] is None else bnp.as_encoded_array(rows, ENC[ename])
-        return bnp.as_encoded_array(list(rows)) if ENC[ename] is None else bnp.as_encoded_array(list(rows), ENC[ename])
+            return bnp.as_encoded_array(rows) if ENC_ALL[ename] is None else bnp.as_encoded_array(rows, ENC_ALL[ename])
+        return bnp.as_encoded_array(list(rows)) if ENC_ALL[ename] is None else bnp.as_encoded_array(list(rows), ENC_ALL[ename])
 
     def case_rc(c):
         rows, ename = c["rows"], c["enc"]
@@ -154,6 +156,20 @@ def run(ctx):
         got = [t.upper() for t in text_rows(res)]
         exp = [(s[a:b].upper() if st == "+" else rc_model(s[a:b])) for a, b, st in ivs]
         ctx.check("strand_specific", got == exp, "get_strand_specific_sequences/wrong", "stranded extraction gave %r expected %r" % (got[:3], exp[:3]), dict(c, got=got, expected=exp), (s, tuple(ivs), ename))
+        if c.get("streamed") and len(ivs) >= 2:
+            # the intervals arrive as a stream of chunks (the reference is the constant first argument): the chunks' results, in order
+            from bionumpy.streams import NpDataclassStream
+            cut_ = max(1, len(ivs) // 2)
+            st_ = NpDataclassStream(iter([table[:cut_], table[cut_:]]), dataclass=StrandedInterval)
+            try:
+                parts_ = [t_.upper() for chunk_res in get_strand_specific_sequences(encode(s, ename), st_) for t_ in text_rows(chunk_res)]
+            except Exception as e:
+                from bnpmon.ctx import originates_in_library
+                if not originates_in_library(e):
+                    raise
+                parts_ = "raised %s" % type(e).__name__
+            ctx.check("strand_specific", parts_ == exp, "get_strand_specific_sequences/wrong:intervals-given-as-a-stream", "stranded extraction over a stream of interval chunks gave %r expected %r" % (parts_ if isinstance(parts_, str) else parts_[:3], exp[:3]), dict(c, got=parts_, expected=exp), (s, tuple(ivs), ename, "stream"))
+            ctx.count("stranded_extractions_over_streams")
         if c.get("edit") and len(s) >= 2:
             # the caller edits the reference in place (masks a stretch) and extracts again from the same object: the letters now held count
             er = random.Random(c["edit"])
@@ -179,7 +195,7 @@ def run(ctx):
             a = rng.randint(0, L - 1)
             b = rng.randint(a + 1, L)
             ivs.append((a, b, rng.choice("+-")))
-        ctx.run_case(case_stranded, {"sequence": s, "intervals": ivs, "enc": ename, "edit": rng.randrange(1, 2 ** 30) if rng.random() < 0.3 else 0})
+        ctx.run_case(case_stranded, {"sequence": s, "intervals": ivs, "enc": ename, "edit": rng.randrange(1, 2 ** 30) if rng.random() < 0.3 else 0, "streamed": rng.random() < 0.25})
 
     def case_genomic(c):
         chroms, ivs = c["chroms"], c["intervals"]
@@ -340,7 +356,7 @@ def run(ctx):
 
     codons = ["".join(p) for p in itertools.product("ACGT", repeat=3)]
     titems = []
-    for ename in ("ascii", "ACGT", "ACTG"):
+    for ename in ("ascii", "ACGT", "ACTG", "TCAG"):
         for cod in codons:
             titems.append({"rows": [cod], "enc": ename})
             titems.append({"rows": [cod.lower(), "", cod + cod[::-1]], "enc": ename})
@@ -350,7 +366,7 @@ def run(ctx):
         rows = ["".join(rng.choice(codons) for _ in range(rng.choice([0, 1, 2, 5, 20]))) for _ in range(rng.randint(1, 4))]
         if rng.random() < 0.3:
             rows = [r.lower() if rng.random() < 0.5 else r for r in rows]
-        ctx.run_case(case_translate, {"rows": rows, "enc": rng.choice(["ascii", "ascii", "ACGT"]), "view": rng.randrange(1, 2 ** 30) if rng.random() < 0.3 else 0})
+        ctx.run_case(case_translate, {"rows": rows, "enc": rng.choice(["ascii", "ascii", "ACGT", "TCAG"]), "view": rng.randrange(1, 2 ** 30) if rng.random() < 0.3 else 0})
     check_held()
     ctx.floor("judged:translate-held", ctx.pick(100, 3000))
     ctx.floor("judged:reverse_complement", ctx.pick(300, 5000))
